@@ -2,7 +2,7 @@
 # seed_validate.sh <Cxx> <m1|m2> : confirm a sub-agent's mutant in its scratch worktree and store it under /verif/seeded
 # (patch applies, full suite passes with it, demo fails with it, demo passes without it)
 set -u
-P=$1; M=$2; WT=/tmp/wt/$P; SRC=/tmp/wt/$P.out/$M; ID=${P}_$M
+P=$1; M=$2; ROOT=${3:-/tmp/wt}; TAG=${4:-}; WT=$ROOT/$P; SRC=$ROOT/$P.out/$M; ID=${P}_${TAG}$M
 . /verif/scripts/goenv.sh
 cd $WT || exit 2
 git checkout -q -- . && git clean -fdq
